@@ -31,6 +31,10 @@
 //     is smaller than the payload (the underlying read may truncate them).
 //   - caller buffer smaller than the payload: n = min(len(b), len(payload)) and
 //     b[:n] is the payload prefix (net.PacketConn copy semantics).
+//   - bound address configurations: port only (IP nil), port + 4-byte IP, port +
+//     the same address as a 16-byte (IPv4-mapped) net.IP; the two spellings
+//     denote the same address. A bound 0.0.0.0 is left out (statement silent on
+//     whether the unspecified address counts as "set").
 //   - fragments and a nil bound address are outside the enumerated space.
 package c18
 
@@ -532,15 +536,26 @@ var (
 
 const boundPort = 68
 
-// bound configurations: 0 = port only (IP nil), 1 = port + IP.
+// bound configurations: 0 = port only (IP nil), 1 = port + IP as a 4-byte
+// net.IP, 2 = port + the same address as a 16-byte (IPv4-mapped) net.IP, which
+// is what net.IPv4, net.ParseIP and net.ResolveUDPAddr return. The 4-byte and
+// 16-byte spellings denote the same bound address (same oracle). A bound IP of
+// 0.0.0.0 is left out: the statement does not say whether the unspecified
+// address counts as "an address is set" (socket convention: it does not) or
+// as the literal destination 0.0.0.0.
+const nBound = 3
+
 func boundAddr(bi int) *net.UDPAddr {
-	if bi == 0 {
+	switch bi {
+	case 0:
 		return &net.UDPAddr{Port: boundPort}
+	case 1:
+		return &net.UDPAddr{IP: net.IP{me[0], me[1], me[2], me[3]}, Port: boundPort}
 	}
-	return &net.UDPAddr{IP: net.IP{me[0], me[1], me[2], me[3]}, Port: boundPort}
+	return &net.UDPAddr{IP: net.IPv4(me[0], me[1], me[2], me[3]), Port: boundPort}
 }
 
-var boundNames = []string{"port-only(:68)", "port+ip(10.0.0.1:68)"}
+var boundNames = []string{"port-only(:68)", "port+ip(10.0.0.1:68, 4-byte net.IP)", "port+ip(10.0.0.1:68, 16-byte net.IP)"}
 
 const (
 	kSkip = iota
@@ -564,7 +579,7 @@ func classify(f []byte, bi int, bufSize int) expect {
 	if u.DstPort != boundPort {
 		return expect{kind: kSkip, class: "other-port"}
 	}
-	if bi == 1 && ip.Dst != me {
+	if bi >= 1 && ip.Dst != me {
 		return expect{kind: kSkip, class: "other-address"}
 	}
 	e := expect{kind: kDeliver, class: ipref.Shape(ip, u), pay: [][]byte{u.Payload}, src: fmt.Sprintf("%s:%d", ip4s(ip.Src), u.SrcPort)}
@@ -588,7 +603,7 @@ type aframe struct {
 	name string
 	core bool
 	b    []byte
-	exp  [2][2]expect // [bound][buffer index]
+	exp  [nBound][2]expect // [bound][buffer index]
 }
 
 var seqBufs = []int{1500, 4}
@@ -959,7 +974,7 @@ func buildAlphabet() []*aframe {
 		}
 	}
 	for _, a := range al {
-		for bi := 0; bi < 2; bi++ {
+		for bi := 0; bi < nBound; bi++ {
 			for xi, bs := range seqBufs {
 				a.exp[bi][xi] = classify(a.b, bi, bs)
 			}
@@ -980,7 +995,7 @@ func pow(b, e int) int64 {
 // and buffer configuration.
 func enumSeq(c *fw.Ctx, scope string, ord *int64, al []*aframe, L int, nontriv *atomic.Int64) {
 	n := pow(len(al), L)
-	for bi := 0; bi < 2; bi++ {
+	for bi := 0; bi < nBound; bi++ {
 		for xi, bs := range seqBufs {
 			base := *ord
 			c.Range(n, func(i int64) {
@@ -1050,7 +1065,7 @@ func runRead(c *fw.Ctx, ord *int64) {
 		}
 		e := a.exp[1][0]
 		names = append(names, fmt.Sprintf("%s [%d bytes; port+ip bound, len(b)=1500: %s %s]", a.name, len(a.b), []string{"SKIP", "DELIVER", "UNSPECIFIED"}[e.kind], e.class))
-		for bi := 0; bi < 2; bi++ {
+		for bi := 0; bi < nBound; bi++ {
 			for xi := range seqBufs {
 				if e := a.exp[bi][xi]; e.kind == kEither {
 					unspec[e.class]++
@@ -1067,7 +1082,7 @@ func runRead(c *fw.Ctx, ord *int64) {
 	var nontriv atomic.Int64
 
 	// (r0) the empty sequence
-	for bi := 0; bi < 2; bi++ {
+	for bi := 0; bi < nBound; bi++ {
 		runSeq(c, "r0:empty", *ord, bi, 1500, nil, nil)
 		c.Eval(1)
 		*ord++
@@ -1085,7 +1100,7 @@ func runRead(c *fw.Ctx, ord *int64) {
 		cases := int64(0)
 		for _, b := range bases {
 			for t := 1; t <= len(b); t++ {
-				for bi := 0; bi < 2; bi++ {
+				for bi := 0; bi < nBound; bi++ {
 					for _, bs := range []int{1500, 4, 0} {
 						fr := [][]byte{append([]byte(nil), b[:t]...), follow}
 						ex := []expect{classify(fr[0], bi, bs), classify(fr[1], bi, bs)}
@@ -1125,10 +1140,10 @@ func runRead(c *fw.Ctx, ord *int64) {
 			}
 		}
 		base := *ord
-		n := int64(len(pcs) * 4)
+		n := int64(len(pcs) * nBound * 2)
 		c.Range(n, func(i int64) {
-			p := pcs[i/4]
-			bi, bs := int(i%2), []int{1500, 4}[i/2%2]
+			p := pcs[i/(nBound*2)]
+			bi, bs := int(i%nBound), []int{1500, 4}[i/nBound%2]
 			fr := [][]byte{productFrame(p.fl, p.ver, p.ihl, p.tl, p.proto), follow}
 			ex := []expect{classify(fr[0], bi, bs), classify(fr[1], bi, bs)}
 			if ex[0].kind == kDeliver {
@@ -1146,11 +1161,11 @@ func runRead(c *fw.Ctx, ord *int64) {
 	// (r3) every destination port; every value of every destination address byte
 	{
 		base := *ord
-		n := int64(65536 * 2 * 2)
+		n := int64(65536 * 2 * nBound)
 		c.Range(n, func(i int64) {
-			port := uint16(i >> 2)
-			bi := int(i & 1)
-			d := [][4]byte{me, other}[i>>1&1]
+			port := uint16(i / (2 * nBound))
+			bi := int(i % nBound)
+			d := [][4]byte{me, other}[i/nBound%2]
 			f := ipref.Build(ipref.Spec{Src: [4]byte{192, 168, 3, 3}, Dst: d, SrcPort: port ^ 0x5555, DstPort: port, Payload: []byte{byte(port >> 8), byte(port), 0x33}})
 			fr := [][]byte{f, follow}
 			ex := []expect{classify(f, bi, 1500), classify(follow, bi, 1500)}
@@ -1161,11 +1176,11 @@ func runRead(c *fw.Ctx, ord *int64) {
 		})
 		*ord += n
 		base = *ord
-		n2 := int64(4 * 256 * 2)
+		n2 := int64(4 * 256 * nBound)
 		c.Range(n2, func(i int64) {
-			bi := int(i & 1)
-			v := byte(i >> 1)
-			pos := int(i >> 9)
+			bi := int(i % nBound)
+			v := byte(i / nBound % 256)
+			pos := int(i / nBound / 256)
 			d := me
 			d[pos] = v
 			f := ipref.Build(ipref.Spec{Src: [4]byte{192, 168, 4, 4}, Dst: d, SrcPort: 67, DstPort: 68, Payload: []byte{byte(pos), v}})
@@ -1183,11 +1198,11 @@ func runRead(c *fw.Ctx, ord *int64) {
 	{
 		base := *ord
 		const maxPay, maxBuf = 64, 70
-		n := int64((maxPay + 1) * (maxBuf + 1) * 2 * 2)
+		n := int64((maxPay + 1) * (maxBuf + 1) * 2 * nBound)
 		c.Range(n, func(i int64) {
 			x := int(i)
-			bi := x % 2
-			x /= 2
+			bi := x % nBound
+			x /= nBound
 			pad := []int{0, 6}[x%2]
 			x /= 2
 			bs := x % (maxBuf + 1)
@@ -1219,10 +1234,10 @@ func runRead(c *fw.Ctx, ord *int64) {
 	total := int64(0)
 	for L := 1; L <= fullL; L++ {
 		enumSeq(c, fmt.Sprintf("r5:all sequences of length %d over the full alphabet", L), ord, al, L, &nontriv)
-		total += pow(len(al), L) * 4
+		total += pow(len(al), L) * nBound * int64(len(seqBufs))
 	}
 	c.Scope("r5:all frame sequences, full alphabet", "alphabet_size", len(al), "max_len", fullL, "buffers", seqBufs, "bound", boundNames, "sequences", total)
-	n := pow(len(core), coreL) * 4
+	n := pow(len(core), coreL) * nBound * int64(len(seqBufs))
 	enumSeq(c, fmt.Sprintf("r6:all sequences of length %d over the core alphabet", coreL), ord, core, coreL, &nontriv)
 	var cn []string
 	for _, a := range core {
